@@ -697,6 +697,24 @@ func (m *Snapshot) Observed(w *mc.World, pid int, after string, names []string, 
 	}
 }
 
+// CurrentIndex is the position of the current committed version in commit order.
+func (m *Snapshot) CurrentIndex() int { return len(m.order) - 1 }
+
+// NotOlderThan: a successful open / Add / reload settles on a version at least as new as the
+// one that was current when the call started.
+func (m *Snapshot) NotOlderThan(w *mc.World, pid int, after string, names []string, startIdx int) {
+	key := strings.Join(names, ",")
+	for i, k := range m.order {
+		if k == key {
+			if i < startIdx {
+				w.Violate(m.Prop, "snapshot:success-but-older-version@after-"+callKind(after),
+					fmt.Sprintf("p%d: %s reported success but left the handle on version #%d %v, older than version #%d that was already committed when the call started", pid, after, i, names, startIdx))
+			}
+			return
+		}
+	}
+}
+
 func errClassShort(s string) string {
 	switch {
 	case strings.Contains(s, "file already closed"):
